@@ -215,7 +215,7 @@ func (g *Gen) mkApp(ops *[]M, app, queue string, gang bool) {
 	op := M{"op": "addApp", "app": app, "queue": queue, "user": g.P.Users[g.rng.Intn(len(g.P.Users))], "groups": g.P.Groups[g.rng.Intn(len(g.P.Groups))],
 		"gang": gang, "style": "", "forced": false, "tags": map[string]string{}}
 	if gang {
-		op["phAsk"], op["style"] = map[string]int64{"memory": 2}, []string{"Soft", "Hard"}[g.rng.Intn(2)]
+		op["phAsk"], op["style"] = map[string]int64{"memory": int64(2 + 2*g.rng.Intn(2))}, []string{"Soft", "Hard"}[g.rng.Intn(2)]
 	}
 	g.gang[app] = gang
 	g.live[app] = true
@@ -449,7 +449,8 @@ func (g *Gen) Next() M {
 		ui := rng.Intn(len(g.P.Users))
 		op := M{"op": "addApp", "app": id, "queue": q, "user": g.P.Users[ui], "groups": g.P.Groups[rng.Intn(len(g.P.Groups))], "gang": false, "style": "", "forced": false, "tags": map[string]string{}}
 		if rng.Intn(100) < g.P.GangPct {
-			op["gang"], op["phAsk"], op["style"] = true, map[string]int64{"memory": 2}, []string{"Soft", "Hard"}[rng.Intn(2)]
+			// the placeholder total the application announces: with 4 it stays Accepted until two placeholders are allocated
+			op["gang"], op["phAsk"], op["style"] = true, map[string]int64{"memory": int64(2 + 2*rng.Intn(2))}, []string{"Soft", "Hard"}[rng.Intn(2)]
 		}
 		if g.P.ForcedPct > 0 && rng.Intn(100) < g.P.ForcedPct {
 			op["forced"] = true
